@@ -95,6 +95,19 @@ Cwds     == << R, r(<<"a">>), r(<<"a","a">>), r(<<XD>>) >>
 DirPaths == << r(<<"b">>), r(<<"a","a">>), r(<<"l1">>), r(<<"a","l2">>), r(<<"b","l1">>),
                r(<<XD>>), r(<<"a","a","b (deleted)">>), r(<<"b","..b">>) >>
 
+(* The tree is not static: between two calls of one run it may change.  One mutation step is the atomic *)
+(* exchange of two nodes with everything below them (renameat2 RENAME_EXCHANGE): with a link and a      *)
+(* directory it turns a directory into a link and a link into a directory, with a link and a file a     *)
+(* file into a link, with two links it retargets both (a relative target is read from the new place).   *)
+(* Every call is resolved in the forest AS IT IS AT THAT CALL; nothing learnt at an earlier call holds.  *)
+Unrelated(p, q) == ~IsPrefix(p, q) /\ ~IsPrefix(q, p)
+Move(p, q, x) == IF IsPrefix(p, x) THEN q \o SubSeq(x, Len(p) + 1, Len(x))
+                 ELSE IF IsPrefix(q, x) THEN p \o SubSeq(x, Len(q) + 1, Len(x))
+                 ELSE x
+Swap(F, p, q) == [ y \in { Move(p, q, x) : x \in DOMAIN F } |-> F[Move(p, q, y)] ]
+\* sw = [p, q]; p = <<>>: no mutation
+At(F, sw) == IF sw.p = <<>> THEN F ELSE Swap(F, sw.p, sw.q)
+
 NodeT(F, p) == IF p = <<>> THEN "dir" ELSE IF p \in DOMAIN F THEN F[p].t ELSE "none"
 
 -----------------------------------------------------------------------------
